@@ -30,7 +30,7 @@ REQUIRED = {
 
 
 def budget(tier):
-    return 1200 if tier == "quick" else 30000
+    return 1200 if tier == "quick" else 60000
 
 
 def gen_case(rng, tier, idx):
